@@ -23,7 +23,8 @@ MALFORMED = ["", "a", "#", "/a", "01", "00#", "0+0", "0-0", "0+01", "0+", "0-", 
 
 
 def bases(rng, tier):
-    out = [[]]
+    # member names that begin with the key marker itself, at and above the position a `#` suffix refers to
+    out = [[], ["tags", "#urgent"], ["#meta", "x"], ["#meta", "x", 1], ["##", "#"], ["a", "#0", 2], ["#"], [0, "#1"]]
     import itertools
     for d in range(1, 5):
         combos = list(itertools.product(BASE_TOKENS, repeat=d))
